@@ -131,6 +131,17 @@ func judge(c Case, w *vkit.W) {
 	if fb, err := size.DefaultFormatter(nil, s, size.FormatPretty); err == nil {
 		w.RetainBytes(c, "DefaultFormatter(nil)", fb, pretty)
 	}
+	if c.S%4 == 2 || c.S < 64 || c.S&(c.S-1) == 0 { // the returned bytes belong to the caller
+		for _, fw := range []struct {
+			f    size.Format
+			want string
+		}{{0, plain}, {size.FormatPretty, pretty}, {size.FormatPretty | size.FormatHTML, html}} {
+			fw := fw
+			if b2, err := size.DefaultFormatter(nil, s, fw.f); err == nil {
+				w.Owned(c, "DefaultFormatter(nil)", b2, fw.want, func() ([]byte, error) { return size.DefaultFormatter(nil, s, fw.f) })
+			}
+		}
+	}
 }
 
 func nontrivial(s uint64) bool {
